@@ -44,5 +44,6 @@ func Corpora(tier string) []corpus.Input {
 		ins = append(ins, corpus.Stress(60, 600, mbt.Seed()*7+5000)...)
 	}
 	ins = append(ins, corpus.Clang(clangOpts...)...)
+	ins = append(ins, corpus.EscapeModules(8)...)
 	return ins
 }
